@@ -8,7 +8,7 @@ confined to an allow table; read-modify-write of output bytes is preceded by ini
 between sections and unused table space is zero-filled."""
 import re
 
-from mir import callee_key, declared_key, stable, op_place, op_const, place_chain
+from mir import callee_key, declared_key, stable, op_place, op_const, place_chain, enum_switch
 from C20 import _alias_roots
 
 EXPLANATION = ("type-driven inventory of concurrent collections and hash containers with their drain sites, each matched "
@@ -43,7 +43,6 @@ DRAINS = {
 
 # hash-container iteration: (stable body key) -> (kind, reason)
 HASH_ITER = {
-    "libwild::args::ArgumentParser::handle_argument": ("set-only", "prefix option lookup: at most one prefix handler matches an argument by construction of the option table"),
     "libwild::args::ArgumentParser::generate_help": ("sort", "help text only; entries are sorted before printing"),
     "libwild::elf::merge_gnu_property_notes": ("sort", "sorted_by_key(property type)"),
     "libwild::elf::allocate_for_copy_relocations": ("fold", "sizes are summed into per-alignment parts (commutative)"),
@@ -53,6 +52,125 @@ HASH_ITER = {
     "libwild::symbol_db::process_alternatives": ("fold", "per-symbol alternatives: each entry is processed independently and errors go to a sorted channel (C26)"),
     "libwild::symbol_db::SymbolDb::all_unversioned_symbols::{closure}": ("set-only", "diagnostic iterator"),
 }
+
+# hash-container iteration keyed by the *container* (first named field of the iterated place) instead of the
+# iterating function; only kinds that are re-verified from the code on every run may appear here, so the row
+# survives a rename/split of the function that holds the loop (e.g. handle_argument -> handle_nested_argument).
+HASH_FIELD = {
+    "prefix_options": ("prefix-free", "prefix option lookup selects entries with str::strip_prefix and the declared prefixes are "
+                                      "pairwise prefix-free, so at most one entry matches whatever the iteration order"),
+}
+PREFIX_DECL = "libwild::args::OptionDeclaration::prefix"
+
+
+def prefix_table(P, F):
+    """(prefixes declared with OptionDeclaration::prefix(<const>), problems). Fails closed: a non-constant prefix,
+    an insert into `prefix_options` or a push to `prefixes` outside OptionDeclaration is a problem."""
+    probs, prefixes = [], []
+    for b, bi, t in P.callers_of(lambda k: k == PREFIX_DECL):
+        c = op_const(t["args"][1]) if len(t["args"]) > 1 else None
+        m = re.fullmatch(r'"((?:[^"\\]|\\.)*)"', (c or {}).get("text") or "")
+        if not m:
+            probs.append(f"non-constant prefix at {b.file}:{t['l']}")
+            continue
+        prefixes.append(m.group(1))
+    for b in F.all_bodies:
+        if not b.key.startswith(("libwild::", "<libwild::")):
+            continue
+        flow = P.flow(b)
+        for bi, t in flow.calls():
+            ck = callee_key(t["f"]) or ""
+            last = ck.split("::")[-1]
+            if not t["args"] or last not in ("insert", "push", "extend", "entry", "extend_from_slice", "insert_unique_unchecked", "get_mut", "iter_mut", "values_mut", "retain", "append"):
+                continue
+            fields, _ = place_chain(flow, t["args"][0])
+            named = [f for f in fields if not f.isdigit() and not f.startswith("@")]
+            if named and named[0] in ("prefix_options", "prefixes") and not stable(b.key).startswith("libwild::args::OptionDeclaration"):
+                probs.append(f"`{named[0]}` is modified by {stable(b.key)} ({b.file}:{t['l']}), outside OptionDeclaration")
+    for i, a in enumerate(prefixes):
+        for j, c in enumerate(prefixes):
+            if i != j and a != c and c.startswith(a):
+                probs.append(f"prefix {a!r} is a prefix of {c!r}: an argument starting with -{c} matches both entries and the hash order picks the handler")
+    if "" in prefixes:
+        probs.append("empty prefix matches every argument")
+    return prefixes, probs
+
+
+SELECTORS = ("strip_prefix", "starts_with")
+ADAPTORS = ("find", "find_map", "filter", "filter_map", "any", "position", "all")
+
+
+def derives_from(flow, op, local, depth=10):
+    """`op` is `local`, or a (re)borrow/move/copy of it (no calls crossed)."""
+    pl = op_place(op)
+    seen = set()
+    st = [pl[0]] if pl else []
+    while st and depth:
+        depth -= 1
+        x = st.pop()
+        if x == local:
+            return True
+        if x in seen:
+            continue
+        seen.add(x)
+        for bi, si, lproj, rv in flow.defs.get(x, []):
+            if lproj or si == "call":
+                continue
+            if rv["k"] in ("ref", "rawptr"):
+                st.append(rv["p"][0])
+            elif rv["k"] in ("use", "cast") and op_place(rv["a"]):
+                st.append(op_place(rv["a"])[0])
+    return False
+
+
+def guarded_selection(F, P, b, t):
+    """The iteration started by call terminator `t` (iter/into_iter/... on a hash container) acts on an entry only
+    after testing its key with str::strip_prefix/starts_with: in a `for`/`while let` loop every path from the
+    Some-arm of `next` to the loop head or to a return passes through such a call; for an adaptor chain
+    (find/find_map/filter/any/...) the selecting closure contains one. Returns (ok, description)."""
+    flow, cfg = P.flow(b), P.cfg(b)
+    dest = t["dest"][0]
+    is_sel = lambda blk: blk["t"]["k"] == "call" and (callee_key(blk["t"]["f"]) or "").split("::")[-1] in SELECTORS
+    nexts, adaptors = [], []
+    for bi, t2 in flow.calls():
+        if not t2["args"] or bi not in cfg.reach:
+            continue
+        if not derives_from(flow, t2["args"][0], dest):
+            continue
+        last = (declared_key(t2["f"]) or "").split("::")[-1]
+        if last == "next":
+            nexts.append((bi, t2))
+        elif last in ADAPTORS:
+            adaptors.append((bi, t2))
+        else:
+            return False, f"the iterator is consumed by {callee_key(t2['f'])}, which is not a recognised selecting form"
+    if not nexts and not adaptors:
+        return False, "no consumer of the iterator found"
+    for bi, t2 in adaptors:
+        sel = any(is_sel(blk) for c in F.closures_of(b.key) for blk in c.blocks)
+        if not sel:
+            return False, f"adaptor {callee_key(t2['f'])} without a strip_prefix/starts_with test in its closure"
+    G = {i for i in cfg.reach if is_sel(b.blocks[i])}
+    for bi, t2 in nexts:
+        sb = t2["to"]
+        for _ in range(4):
+            if sb is None or b.blocks[sb]["t"]["k"] == "switch":
+                break
+            sb = b.blocks[sb]["t"].get("to") if b.blocks[sb]["t"]["k"] == "goto" else None
+        es = enum_switch(F, b, flow, cfg, sb) if sb is not None else None
+        if not es or es[0] != "std::option::Option":
+            return False, "the result of `next` is not matched on Some/None"
+        some = [tgt for lab, tgt in cfg.succ[sb] if es[1].get(lab) == frozenset(["Some"])]
+        if len(some) != 1:
+            return False, "no unique Some arm after `next`"
+        R = cfg.reachable_from(some[0], avoid=G)
+        if bi in R:
+            return False, "an entry can be skipped or acted on and the loop continued without testing its key (path from the Some arm back to `next` avoiding strip_prefix/starts_with)"
+        rets = [i for i in R if b.blocks[i]["t"]["k"] == "return"]
+        if rets:
+            return False, "the function can return from the loop body without testing the entry's key: the first entry in hash order is acted on"
+    return True, f"{len(nexts)} loop(s)/{len(adaptors)} adaptor(s): every path from the Some arm passes a strip_prefix/starts_with test"
+
 
 SOURCES = re.compile(r"^(rayon::current_num_threads|rayon_core::current_num_threads|std::thread::available_parallelism|.*::new_v4|"
                      r"std::time::Instant::now|std::time::SystemTime::now|std::env::var|std::env::var_os|std::env::vars|std::process::id|"
@@ -106,7 +224,7 @@ def run(ctx, rep):
     F = ctx.facts()
     P = ctx.program()
     rep.rule("drains", "every drain of a concurrently filled collection is a row of the determiniser table, and the row's determiniser is present in the code (sort call in the named function / indexed store / map insert)")
-    rep.rule("hash-iter", "every iteration over a hash container in libwild is a table row; rows of kind `sort` have a sort in the same body")
+    rep.rule("hash-iter", "every iteration over a hash container in libwild is a table row (by function, or by container for re-verified kinds); rows of kind `sort` have a sort in the same body; rows of kind `prefix-free` select with strip_prefix over a key set read from the declarations and checked pairwise prefix-free")
     rep.rule("sources", "every call of a nondeterminism source (thread count, time, uuid, env, pid, randomness) is a row of the allow table")
     rep.rule("rmw-init", "a read-modify-write store into an output slice is dominated by a fill of that slice or a plain store to the same place")
     rep.rule("zero-fill", "padding between sections, unused trailing space of parts and hash-table arrays are zero-filled")
@@ -154,6 +272,7 @@ def run(ctx, rep):
 
     # ---- hash iteration ---------------------------------------------------------------------------------------
     n = 0
+    pfx = None
     for b in F.all_bodies:
         if not b.key.startswith(("libwild::", "<libwild::")):
             continue
@@ -171,6 +290,19 @@ def run(ctx, rep):
             n += 1
             row = HASH_ITER.get(stable(b.key))
             inst = f"{stable(b.key)}:{ck.split('::')[-1]}"
+            if row is None:
+                fields, _ = place_chain(flow, t["args"][0])
+                named = [f for f in fields if not f.isdigit() and not f.startswith("@")]
+                frow = HASH_FIELD.get(named[0]) if named else None
+                if frow is not None and frow[0] == "prefix-free":
+                    if pfx is None:
+                        pfx = prefix_table(P, F)
+                    selects, how = guarded_selection(F, P, b, t)
+                    ok = not pfx[1] and len(pfx[0]) >= 5 and selects
+                    detail = (f"{frow[1]}; declared prefixes {sorted(pfx[0])}; selection: {how if selects else 'MISSING - ' + how}"
+                              + ("; " + "; ".join(pfx[1]) if pfx[1] else ""))
+                    rep.ob("hash-iter", inst, ok, detail, b.file, t["l"])
+                    continue
             if row is None:
                 rep.ob("hash-iter", inst, False, f"iteration over a hash container ({ty[:60]}) with no recorded determiniser: iteration order depends on the hasher and insertion history", b.file, t["l"])
                 continue
